@@ -9,6 +9,8 @@ pub fn use_def(
     function: &il::Function,
 ) -> Result<HashMap<il::ProgramLocation, LocationSet>, Error> {
     let rd = reaching_definitions::reaching_definitions(function)?;
+    // Uses read the state before their location executes.
+    let rd = reaching_definitions::reaching_definitions_in(function, &rd)?;
 
     let mut ud = HashMap::new();
 
